@@ -298,7 +298,9 @@ impl<'a> Gen<'a> {
                     {
                         let a = self.words.next(self.rng, false);
                         let b = self.words.next(self.rng, false);
-                        Inl::Code(match self.rng.below(4) {
+                        Inl::Code(match self.rng.below(6) {
+                            4 => format!("{}`{}", a, b),
+                            5 => format!("`{}`", a),
                             0 => a,
                             1 => format!("{} {}", a, b),
                             2 => format!("{}({})", a, b),
@@ -482,8 +484,21 @@ impl<'a> Gen<'a> {
                 body.push(String::new());
             }
         }
-        let fence = if self.rng.chance(1, 3) { '~' } else { '`' };
-        let len = self.rng.range(3, 5);
+        let mut fence = if self.rng.chance(1, 3) { '~' } else { '`' };
+        let mut len = self.rng.range(3, 5);
+        // a fence inside the code (documentation about Markdown): the outer fence must be longer or of the other kind
+        if !body.is_empty() && self.rng.chance(1, 10) {
+            let inner = self.rng.range(3, 4);
+            let at = self.rng.below(body.len());
+            body.insert(at, "`".repeat(inner));
+            body.push("`".repeat(inner));
+            if self.rng.chance(1, 2) {
+                fence = '~';
+            } else {
+                fence = '`';
+                len = inner + self.rng.range(1, 2);
+            }
+        }
         let info = if self.rng.chance(1, 2) {
             self.rng.pick(&["rust", "sh", "text", "python3", "c++"]).to_string()
         } else {
@@ -539,7 +554,12 @@ impl<'a> Gen<'a> {
             }
             let block_first = self.p.item_block_first && !long && depth < self.p.max_depth && self.rng.chance(1, 12);
             if block_first {
-                let b = match self.rng.below(3) {
+                let b = match self.rng.below(4) {
+                    // a rule (spelled with underscores: "- ---" and "* ***" would be rules themselves)
+                    3 => {
+                        tight = false;
+                        Blk::Rule(1)
+                    }
                     0 if self.p.quotes => self.quote(depth + 1),
                     1 if self.p.tables => {
                         tight = false;
@@ -740,9 +760,19 @@ fn render_inlines(v: &[Inl], st: &mut Style, defs: &mut Vec<(String, String)>) -
                 out.push_str("~~");
             }
             Inl::Code(c) => {
-                out.push('`');
+                // delimiter longer than any backtick run inside; padded when the code starts or ends with a backtick
+                let longest = c.split(|ch| ch != '`').map(|r| r.len()).max().unwrap_or(0);
+                let d = "`".repeat(longest + 1 + if longest > 0 && st.rng.chance(1, 3) { 1 } else { 0 });
+                let pad = c.starts_with('`') || c.ends_with('`');
+                out.push_str(&d);
+                if pad {
+                    out.push(' ');
+                }
                 out.push_str(c);
-                out.push('`');
+                if pad {
+                    out.push(' ');
+                }
+                out.push_str(&d);
             }
             Inl::Link {
                 dest,
@@ -752,10 +782,14 @@ fn render_inlines(v: &[Inl], st: &mut Style, defs: &mut Vec<(String, String)>) -
             } => {
                 let t = render_inlines(text, st, defs);
                 match style {
-                    LStyle::Inline => match title {
-                        Some(ti) => out.push_str(&format!("[{}]({} \"{}\")", t, dest, ti)),
-                        None => out.push_str(&format!("[{}]({})", t, dest)),
-                    },
+                    LStyle::Inline => {
+                        // a destination that holds a space (a note called "n 3") is only a destination in angle brackets
+                        let d = if dest.contains(' ') { format!("<{}>", dest) } else { dest.clone() };
+                        match title {
+                            Some(ti) => out.push_str(&format!("[{}]({} \"{}\")", t, d, ti)),
+                            None => out.push_str(&format!("[{}]({})", t, d)),
+                        }
+                    }
                     LStyle::RefDef => {
                         let label = format!("ref{}", defs.len() + 1);
                         out.push_str(&format!("[{}][{}]", t, label));
@@ -977,7 +1011,7 @@ pub fn render(doc: &Doc, seed: u64, crlf: bool) -> String {
     if !defs.is_empty() {
         lines.push(String::new());
         for (label, dest) in defs {
-            lines.push(format!("[{}]: {}", label, dest));
+            lines.push(format!("[{}]: {}", label, if dest.contains(' ') { format!("<{}>", dest) } else { dest.clone() }));
         }
     }
     let nl = if crlf { "\r\n" } else { "\n" };
